@@ -92,7 +92,10 @@ func c01TraceCheck(e *Env, src string, goOut string, gt goTrace, reply string) s
 // the dispatch traces differ while the outcomes agree: the predicate for shrinking.
 func c01TraceDiffers(e *Env, p *N) bool {
 	src := Src(p)
-	out, tr := EvalSrcTraced(src, 5*time.Second)
+	out, tr := EvalSrcTraced(src, 2*time.Second)
+	if strings.HasPrefix(goOutcome(out), "err\tcontext") || tr.n > 300000 {
+		return false // a candidate that no longer terminates (the shrinker removed its bound) is not a witness
+	}
 	_, diff := c01TraceCompare(goOutcome(out), tr, e.O.Ask("C01", "vmtrace", Sexp(p), c01Globals))
 	return diff != "" && diff != "skip" && diff != "outcome"
 }
